@@ -274,7 +274,8 @@ class StackWorld(object):
                 break
             simloop.advance_to(max(min(dues), simloop.CLOCK.now_ms))
             self.pump()
-        simloop.advance_to(target)
+        # (pump() lets time pass while a UDPCL agent paces datagrams: the clock may be beyond the target already)
+        simloop.advance_to(max(target, simloop.CLOCK.now_ms))
         return self.pump()
 
     def transfers(self):
